@@ -222,10 +222,33 @@ dim_impl!(h3, p3, 3, |m: &TriMesh| m.pseudo_normals().map(|pn| (
     pn.edges_pseudo_normal.iter().map(|e| e.iter().flat_map(|v| v.iter().cloned()).collect::<Vec<f64>>()).collect::<Vec<_>>())));
 dim_impl!(h2, p2, 2, |_m: &TriMesh| None);
 
+/// `contains3`: <mesh> <nops> <op>* <npts> <pts>  ->  one bit per point (`contains_local_point`), or `nobuild`
+fn contains3(a: &mut Args) -> String {
+    use crate::p3::math::Point;
+    use crate::p3::query::PointQuery;
+    use crate::p3::shape::{TriMesh, TriMeshFlags};
+    let m0 = read_mesh(a, 3);
+    let ops = read_ops(a, 3);
+    let npts = a.u();
+    let pts: Vec<Point<f64>> = (0..npts).map(|_| Point::new(a.f(), a.f(), a.f())).collect();
+    let mk = |m: &RawMesh| TriMesh::with_flags(m.v.iter().map(|c| Point::new(c[0], c[1], c[2])).collect(), m.i.clone(),
+                                               TriMeshFlags::from_bits_truncate(m.f));
+    let mut mesh = match mk(&m0) { Ok(m) => m, Err(_) => return "nobuild".into() };
+    for op in &ops {
+        match op {
+            RawOp::Sf(f) => { let _ = mesh.set_flags(TriMeshFlags::from_bits_truncate(*f)); }
+            RawOp::Rev => mesh.reverse(),
+            RawOp::App(r) => { if let Ok(rhs) = mk(r) { mesh.append(&rhs); } }
+        }
+    }
+    pts.iter().map(|p| if mesh.contains_local_point(p) { "1" } else { "0" }).collect::<Vec<_>>().join(" ")
+}
+
 pub fn exec(func: &str, a: &mut Args) -> String {
     match func {
         "hist3" | "hist3w" => h3::hist(a),
         "hist2" | "hist2w" => h2::hist(a),
+        "contains3" => contains3(a),
         _ => "nofn".into(),
     }
 }
@@ -338,6 +361,65 @@ fn gen_ops(r: &mut Rng, d: usize, maxlen: u64) -> Vec<RawOp> {
     }).collect()
 }
 
+/// closed, outward-oriented meshes with integer vertices
+fn closed_mesh(r: &mut Rng) -> RawMesh {
+    let mut m = match r.below(4) {
+        0 => tetra(3, 0.0),
+        1 => cube(),
+        2 => { // octahedron
+            let v = vec![vec![1.0, 0.0, 0.0], vec![-1.0, 0.0, 0.0], vec![0.0, 1.0, 0.0], vec![0.0, -1.0, 0.0], vec![0.0, 0.0, 1.0], vec![0.0, 0.0, -1.0]];
+            RawMesh { v, i: vec![[0, 2, 4], [2, 1, 4], [1, 3, 4], [3, 0, 4], [2, 0, 5], [1, 2, 5], [3, 1, 5], [0, 3, 5]], f: 0 } }
+        _ => { // cube [0,2]^3 whose top face is dented down to its centre (1,1,1): non-convex
+            let mut c = cube();
+            for p in c.v.iter_mut() { for x in p.iter_mut() { *x *= 2.0; } }
+            // remove the two top triangles (z = 2): vertices 1,3,5,7
+            c.i.retain(|t| !t.iter().all(|&k| k % 2 == 1));
+            c.v.push(vec![1.0, 1.0, 1.0]);
+            // top ring, counter-clockwise seen from above: (0,0,2)=1, (2,0,2)=5, (2,2,2)=7, (0,2,2)=3
+            for (a2, b2) in [(1u32, 5u32), (5, 7), (7, 3), (3, 1)] { c.i.push([a2, b2, 8]); }
+            c }
+    };
+    // integer scale / translation keeps everything exact
+    let sc = r.range(1, 3) as f64; let tr: Vec<f64> = (0..3).map(|_| r.range(-3, 3) as f64).collect();
+    for p in m.v.iter_mut() { for k in 0..3 { p[k] = p[k] * sc + tr[k]; } }
+    if r.below(3) == 0 { m = soupify(&m); m.f = MERGE; }
+    m.f |= ORIENTED;
+    if r.bool() { m.f |= *r.pick(&[HET, CC, HET | CC, DEL_DEGEN | MERGE, DEL_DUP | MERGE, FIX7 | MERGE, DEL_BAD]); }
+    m
+}
+fn gen_contains(r: &mut Rng) -> String {
+    use crate::p3::math::Point;
+    use crate::p3::query::PointQuery;
+    use crate::p3::shape::{TriMesh, TriMeshFlags};
+    let m = closed_mesh(r);
+    // orientation-preserving histories only
+    let mut ops = vec![];
+    for _ in 0..r.below(3) {
+        match r.below(3) {
+            0 => { ops.push(RawOp::Rev); ops.push(RawOp::Rev); }
+            1 => ops.push(RawOp::Sf(m.f | *r.pick(&[HET, CC, MERGE, DEL_DEGEN | MERGE, DEL_BAD, FIX7 | MERGE]))),
+            _ => ops.push(RawOp::Sf(ORIENTED | (m.f & MERGE))),
+        }
+    }
+    let (mut lo, mut hi) = (vec![f64::MAX; 3], vec![f64::MIN; 3]);
+    for p in &m.v { for k in 0..3 { lo[k] = lo[k].min(p[k]); hi[k] = hi[k].max(p[k]); } }
+    // reference mesh only used to keep query points away from the surface
+    let refm = TriMesh::with_flags(m.v.iter().map(|c| Point::new(c[0], c[1], c[2])).collect(), m.i.clone(), TriMeshFlags::empty()).unwrap();
+    let mut pts = vec![];
+    while pts.len() < 6 {
+        let margin = if r.bool() { 0.0 } else { 1.0 };
+        let lat = r.bool();
+        let p: Vec<f64> = (0..3).map(|k| if lat { (r.range(((lo[k] - margin) * 8.0) as i64, ((hi[k] + margin) * 8.0) as i64) as f64) / 8.0 + 0.0625 }
+                                          else { r.uniform(lo[k] - margin, hi[k] + margin) }).collect();
+        let d = refm.distance_to_local_point(&Point::new(p[0], p[1], p[2]), false);
+        if d >= 1.0e-3 { pts.push(p); }
+    }
+    let mut s = show_case(&m, &ops);
+    s.push_str(&format!(" {}", pts.len()));
+    for p in &pts { s.push(' '); s.push_str(&hxs(p.iter())); }
+    s
+}
+
 pub fn gen(r: &mut Rng, thorough: bool) -> Vec<(String, String)> {
     let mut out = vec![];
     let n3 = if thorough { 40000 } else { 5000 };
@@ -350,6 +432,9 @@ pub fn gen(r: &mut Rng, thorough: bool) -> Vec<(String, String)> {
     for _ in 0..n2 {
         let m = gen_mesh(r, 2, false); let ops = gen_ops(r, 2, maxlen);
         out.push(("hist2".to_string(), show_case(&m, &ops)));
+    }
+    for _ in 0..(if thorough { 6000 } else { 600 }) {
+        out.push(("contains3".to_string(), gen_contains(r)));
     }
     out
 }
